@@ -35,7 +35,9 @@ type lmtpCase struct {
 // the two abstract addresses a, b of Lmtp.tla are rendered in several ways:
 // plainly different, and different only in the case of a letter (mailbox
 // names are case-sensitive: RFC 5321 section 2.4)
-var addrScheme = [][2]string{{"a@x.test", "b@x.test"}, {"Bob@x.test", "bob@x.test"}, {"carol@x.test", "caroL@x.test"}, {"a@x.test", "b@x.test"}}
+// (neither is the domain folded by the server: two spellings are two recipients
+// with a status each)
+var addrScheme = [][2]string{{"a@x.test", "b@x.test"}, {"Bob@x.test", "bob@x.test"}, {"carol@x.test", "caroL@x.test"}, {"dave@X.Test", "dave@x.test"}, {"a@x.test", "b@x.test"}}
 
 func addrOfIdx(a string, idx int) string {
 	sc := addrScheme[idx%len(addrScheme)]
